@@ -273,6 +273,28 @@ def run(tier):
     # ---- R4 front-end clause: identifier-like token kinds are names everywhere Identifier is
     import identkinds
     identkinds.rule(fx, ck)
+    # ---------------- R6 built-in type names end a type
+    # `string`, `number`, `boolean` ... are ordinary identifiers to the lexer; the type parser turns them into TypeAnnotation::Keyword, which takes no
+    # type arguments.  A built-in name that is parsed as a type *reference* instead goes on to `parse_optional_type_arguments`, which commits to an
+    # argument list on `<`: `i as number < n` stops parsing.  T-COVER: every variant of the keyword enum is constructed by the parser.
+    ck.rule("R6.keyword-types", "every variant of ast::TypeKeywordKind is constructed by the type parser (a built-in type name is not parsed as a type reference)", floor=10)
+    kw = "ast::TypeKeywordKind"
+    if ck.anchor(kw in fx.adts, "enum " + kw):
+        built6 = {}
+        for p6, f6 in fx.fns.items():
+            if f6.derived or not f6.file.endswith("src/parser.rs"):
+                continue
+            for bl in f6.blocks:
+                for s6 in bl["s"]:
+                    if s6[0] == "a" and s6[2][0] == "agg" and isinstance(s6[2][1], dict) and s6[2][1].get("p") == kw:
+                        built6.setdefault(s6[2][1].get("v"), s6[3])
+        for v6 in fx.adts[kw]["variants"]:
+            ok6 = v6["name"] in built6
+            ck.instance("R6.keyword-types", "TypeKeywordKind::%s" % v6["name"], F.short_span(built6.get(v6["name"])) if ok6 else None, ok=ok6)
+            if not ok6:
+                ck.finding("R6.keyword-types", "R6.keyword-types/%s" % v6["name"], None,
+                           "the parser never builds TypeKeywordKind::%s: the type name `%s` is parsed as a type reference, which commits to a type-argument "
+                           "list on `<` - `x as %s < y` is a SyntaxError while `x < y` runs" % (v6["name"], v6["name"].lower(), v6["name"].lower()))
     # ---------------- R5 a modifier word is consumed only behind a look-ahead
     import modlook
     ck.rule("R5.modifier-lookahead", "static / abstract / public / private / protected / readonly / accessor / async / declare / get / set are consumed in front of a member, "
